@@ -727,6 +727,8 @@ def structural(src: str, stub: str, all_names: list[str] | None) -> list[tuple[s
                     cands = [x for x in bb[name] if isinstance(x, ast.AnnAssign)]
                     if not cands:
                         problems.append((t, f"{path}{name}: variable annotation lost (stub binds it as {type(bb[name][0]).__name__})"))
+                    elif want in ("Final", "ClassVar") and any(_norm_ann(c.annotation).startswith(want + "[") for c in cands):
+                        pass    # the stub may refine a bare Final / ClassVar with the inferred type
                     elif all(_norm_ann(c.annotation) != want for c in cands):
                         problems.append((t, f"{path}{name}: variable annotation differs: source `{want}` stub `{_norm_ann(cands[0].annotation)}`"))
                 n_ok += len(problems) == n_d
